@@ -166,6 +166,16 @@ example : ∃ s, (Space.init g0).run ops0 = some s ∧ (s.search ⟨0, 0, 0⟩ 2
   obtain ⟨s, hs, hp, _⟩ := search_eq_bruteforce g0 (by decide) ops0 ⟨0, 0, 0⟩ 20
   exact ⟨s, hs, hp⟩
 
+/-- non-vacuity of `removed_never_reported`: entity 3 is deleted, moved (ignored) and queried;
+its last position was exactly on the circle -/
+example : ∃ s, (Space.init g0).run (ops0 ++ [Op.del 3] ++ [Op.mov 3 ⟨0, 0, 0⟩, Op.add 7 ⟨1, 1, 1⟩]) = some s ∧
+    3 ∉ s.search ⟨0, 0, 0⟩ 20 :=
+  removed_never_reported g0 (by decide) ops0 [Op.mov 3 ⟨0, 0, 0⟩, Op.add 7 ⟨1, 1, 1⟩] 3 (by intro p; simp) ⟨0, 0, 0⟩ 20
+
+/-- non-vacuity of `zone_fix_conservative`: a coordinate far outside the map, still inside the int64 range -/
+example : zoneNOld (4 * 10 ^ 18) (-120) 20 13 = zoneN (4 * 10 ^ 18) (-120) 20 13 :=
+  zone_fix_conservative _ _ _ _ (by decide) (by decide) (by decide) (by decide)
+
 /-- **D12** (repaired by the `fix:` commit): with the pre-fix zone function a query at the
 origin with radius 10²⁰ (4·10²⁰ quarter units; `(r+30)/5 ≥ 2⁶³`) converts to `MinInt64`,
 clamps to column/row 0 and reports nothing, while both entities are within range and
